@@ -504,85 +504,131 @@ def _nonempty_guard(prog, f: FuncInfo, sub: ast.Subscript, seq_t: str) -> Tuple[
 
 
 # --------------------------------------------------------------------------------------------- c
+def _dtype_token_forms(it, tok, D) -> dict:
+    """The three values a dtype token takes: no dtype / plain / nullable (terms shown canonically)."""
+    from ..symx import show, simplify
+    nul = ("attr", D, "nullable")
+    out = {}
+    for sit, atoms in (("none", {D: False}), ("plain", {D: True, nul: False}), ("nullable", {D: True, nul: True})):
+        out[sit] = show(simplify(tok, atoms), it)
+    return out
+
+
+def _want_token(it, D) -> dict:
+    from ..symx import show
+    name = ("attr", ("attr", D, "kind"), "__name__")
+    return {"none": "'object'", "plain": show(name, it), "nullable": show(("bin", "Add", name, ("const", "str", "?")), it)}
+
+
 def _footer(ctx) -> None:
+    from ..symx import Interp as SInterp
+    from ..symx import NONE as SNONE
+    from ..symx import const, elements, show, single_element, subterms
     prog = ctx.prog
     f = prog.func("display._footer")
-    pv = f.params[0]
-    df = Defs(f)
-    roles = {}
-    for n, lst in df.assigns.items():
-        for v, st, how in lst:
-            if v is None:
-                continue
-            if short(v) == f"{pv}.shape" and how == "assign":
-                roles[n] = "SHAPE"
-            if short(v) == f"{pv}._dtype.kind.__name__":
-                roles[n] = "DT"
-    for st in walk_stmts(f.body):
-        if isinstance(st, ast.Assign) and isinstance(st.targets[0], ast.Tuple) and isinstance(st.value, ast.Name) \
-                and roles.get(st.value.id) == "SHAPE" and len(st.targets[0].elts) == 2:
-            roles[st.targets[0].elts[0].id] = "ROWS"
-            roles[st.targets[0].elts[1].id] = "COLS"
-    t = cshort(f.node, roles, 6000).replace('"', "'")
+    it = SInterp(prog, f)
+    pv = ("param", f.params[0])
+    D = ("attr", pv, "_dtype")
+    shape = ("attr", pv, "shape")
     problems = []
-    if "SHAPE" not in roles.values():
-        problems.append("the shape does not come from the object's shape")
-    rets = [cshort(s_.value, roles).replace('"', "'") for s_ in walk_stmts(f.body) if isinstance(s_, ast.Return)]
-    if not any(r == "f'# {len(" + pv + ")} element vector <{DT}>'" for r in rets):
-        problems.append(f"the vector footer is not `# {{len({pv})}} element vector <dtype>` (returns: {[r[:50] for r in rets]})")
-    import re as _re
-    if not any(_re.fullmatch(r"f'# \{ROWS\}×\{COLS\} table <\{\w+\}>'", r) for r in rets):
-        problems.append("the table footer is not `# {rows}×{cols} table <dtypes>` with rows, cols unpacked from the object's shape")
-    if t.count(f"{pv}._dtype.kind.__name__") < 2 or f"{pv}._dtype.nullable" not in t:
-        problems.append("the dtype token does not come from the object's dtype with its nullability")
+    rets = [e for e in it.events if e.kind == "return" and e.depth == 0]
+
+    def parts_of(t):
+        return list(t[1]) if t[0] == "fstr" else [t]
+    vec = tab = None
+    for e in rets:
+        ps = parts_of(e.term)
+        txt = "".join(p[2] for p in ps if p[0] == "const" and isinstance(p[2], str))
+        if "element vector" in txt:
+            vec = (e, ps)
+        if "table" in txt:
+            tab = (e, ps)
+    if not any(shape in list(subterms(c)) for e in rets for c, _ in e.conds):
+        problems.append("the footer kind is not decided by the object's shape")
+    if vec is None:
+        problems.append("the vector footer `# N element vector <dtype>` is not produced")
+    else:
+        e, ps = vec
+        fm = [p for p in ps if p[0] == "fmt"]
+        if len(fm) != 2 or fm[0][1] != ("call", ("name", "len"), (pv,), ()):
+            problems.append(f"the vector footer does not state len({f.params[0]}) (`{show(e.term, it)[:70]}`)")
+        elif _dtype_token_forms(it, fm[1][1], D) != _want_token(it, D):
+            problems.append(f"the dtype token is {_dtype_token_forms(it, fm[1][1], D)}: it does not come from the object's dtype with its "
+                            f"nullability")
+    if tab is None:
+        problems.append("the table footer `# rows×cols table <dtypes>` is not produced")
+    else:
+        e, ps = tab
+        fm = [p for p in ps if p[0] == "fmt"]
+        if len(fm) != 3 or fm[0][1] != ("sub", shape, const(0)) or fm[1][1] != ("sub", shape, const(1)):
+            problems.append("the table footer is not `# {rows}×{cols} table <dtypes>` with rows, cols taken from the object's shape")
     ctx.ob("c.footer", f, "sources", not problems, "footer reads len(pv), pv.shape, pv._dtype", f.node, message="_footer: " + "; ".join(problems))
+    # elided dtype list
+    ok = False
+    if tab is not None:
+        dl, shown, trunc = ("param", f.params[1]), ("param", f.params[3]), ("param", f.params[2])
+        join = lambda x: ("call", ("attr", const(", "), "join"), (x,), ())
+        head = ("sub", dl, ("slice", SNONE, shown, SNONE))
+        tail = ("sub", dl, ("slice", ("un", "USub", shown), SNONE, SNONE))
+        want = ("bin", "Add", ("bin", "Add", join(head), const(", ..., ")), join(tail))
+        tok = [p for p in tab[1] if p[0] == "fmt"][-1][1] if [p for p in tab[1] if p[0] == "fmt"] else None
+        if tok is not None:
+            ok = any(t == ("ifexp", trunc, want, join(dl)) for t in subterms(tok))
+    ctx.ob("c.footer", f, "elided-list", ok, "elided dtype list = first and last `shown` of the full list", f.node,
+           message="_footer no longer elides the FULL dtype list symmetrically (first `shown` + ', ..., ' + last `shown` when truncated, the "
+                   "whole list otherwise)")
+    # ---- _repr_table: the footer is fed with the table and a dtype list over ALL columns
     g = prog.func("display._repr_table")
-    d = Defs(g)
+    gi = SInterp(prog, g)
+    tbl = ("param", g.params[0])
+    allcols = ("call", ("attr", tbl, "cols"), (), ())
     problems = []
-    # dtypes_all built over ALL columns
-    colsv = [n for n, lst in d.assigns.items() if any(v is not None and short(v) == f"{g.params[0]}.cols()" for v, _, _ in lst)]
-    colsv = colsv[0] if colsv else "cols"
-    loops = [s for s in g.body if isinstance(s, ast.For) and short(s.iter) == colsv and isinstance(s.target, ast.Name)]
+    calls = [e for e in gi.events if e.kind == "call" and e.term[1] == ("name", "_footer")]
+    lists = []
+    for e in calls:
+        if len(e.term[2]) > 1 and e.term[2][1] != SNONE and e.term[2][1] not in lists:
+            lists.append(e.term[2][1])
     allv = None
-    for lp in loops:
-        apps = [n for n in walk_no_nested(lp) if isinstance(n, ast.Call) and isinstance(n.func, ast.Attribute) and n.func.attr == "append"]
-        if apps and all("dtype" in short(a.func.value) for a in apps):
-            allv = short(apps[0].func.value)
-            tl = cshort(lp, {lp.target.id: "COL"}, 3000)
-            if "COL._dtype.kind.__name__" not in tl or "COL._dtype.nullable" not in tl:
-                problems.append("the per-column dtype list does not carry kind and nullability of each column")
-    cv = d.values(colsv)
-    if not cv or short(cv[0]) != f"{g.params[0]}.cols()":
-        problems.append("the column sequence is not all columns of the table")
+    for L_ in lists:
+        if L_[0] == "obj":
+            se = single_element(gi, L_)
+            if se is not None:
+                lps, extra, v, e = se
+                if len(lps) == 1 and gi.loops[lps[0]].iter == allcols and not extra:
+                    cd = ("attr", ("elem", allcols, lps[0]), "_dtype")
+                    if _dtype_token_forms(gi, v, cd) == _want_token(gi, cd):
+                        allv = L_
+                    else:
+                        problems.append("the per-column dtype list does not carry kind and nullability of each column")
     if allv is None:
         problems.append("no dtype list is computed over ALL columns (the footer would describe only the displayed ones)")
-    ctx.ob("c.footer", g, "all-columns", not problems, f"footer dtype list `{allv}` covers all columns", g.node, message="_repr_table: " + "; ".join(problems))
-    # footer calls use the all-columns list; homogeneity over all columns
+    ctx.ob("c.footer", g, "all-columns", not problems, "the footer's dtype list covers all columns", g.node, message="_repr_table: " + "; ".join(problems))
     problems = []
-    calls = [c for c in prog.calls_in(g) if short(c.func) == "_footer"]
     if len(calls) < 2:
         problems.append("footer is not produced by _footer(...)")
-    for c in calls:
-        if short(c.args[0]) != g.params[0]:
-            problems.append(f"`{short(c, 60)}` is not given the table itself")
-        if len(c.args) > 1 and short(c.args[1]) not in ("None", allv):
-            problems.append(f"`{short(c, 60)}` passes `{short(c.args[1])}`, not the list over all columns")
-    uniq = [s for s in walk_stmts(g.body) if isinstance(s, ast.Assign) and short(s.value).startswith("set(") and "dtype" in short(s.value)]
-    if allv and not any(short(s.value) == f"set({allv})" for s in uniq):
-        problems.append("homogeneity of the dtypes is not decided over all columns")
-    single = [n for n in walk_no_nested(g.node) if isinstance(n, ast.Subscript) and isinstance(n.slice, ast.Constant) and n.slice.value == 0
-              and "dtype" in short(n.value)]
-    for sn in single:
-        if allv and short(sn.value) != allv:
-            problems.append(f"the single-dtype footer shows `{short(sn)}`, a DISPLAYED column's dtype: a hidden column of another dtype "
-                            f"would be misstated")
+    for e in calls:
+        if not e.term[2] or e.term[2][0] != tbl:
+            problems.append(f"`{show(e.term, gi)[:60]}` is not given the table itself")
+        if len(e.term[2]) > 1 and e.term[2][1] != SNONE and e.term[2][1] != allv:
+            problems.append(f"`{show(e.term, gi)[:60]}` passes `{show(e.term[2][1], gi)[:40]}`, not the list over all columns")
+    if allv is not None:
+        sets = [("obj", oid) for oid, o in gi.objs.items() if o.kind == "set" and isinstance(o.node, ast.Call)]
+        sets_all = [x for x in sets if gi.objs[x[1]].init == (allv,)]
+        used = [x for x in sets if any(x in list(subterms(c)) for e in calls for c, _ in e.conds)]
+        if not any(x in sets_all for x in used) and used:
+            problems.append("homogeneity of the dtypes is not decided over all columns")
+        if not used and not sets_all:
+            problems.append("homogeneity of the dtypes is not decided over all columns")
+        for e in gi.events:
+            if e.kind == "call" and e.term[1][0] == "attr" and e.term[1][2] == "replace" and e.term[1][1] in [c.term for c in calls]:
+                for t in subterms(e.term[2][1]) if len(e.term[2]) > 1 else []:
+                    if t[0] == "sub" and t[2] == const(0) and t[1] != allv:
+                        problems.append(f"the single-dtype footer shows `{show(t, gi)[:60]}`, not a dtype from the list over ALL columns (a "
+                                        f"DISPLAYED column's dtype: a hidden column of another dtype would be misstated)")
+    seen = set()
+    problems = [p_ for p_ in problems if not (p_ in seen or seen.add(p_))]
     ctx.ob("c.footer", g, "footer-inputs", not problems, "footer fed with the table and the all-columns dtype list", g.node,
            message="_repr_table: " + "; ".join(problems))
-    # truncated dtype list in _footer: head/tail of the full list
-    t2 = short(prog.func("display._footer").node, 5000)
-    ok = "', '.join(dtype_list[:shown]) + ', ..., ' + ', '.join(dtype_list[-shown:])" in t2
-    ctx.ob("c.footer", prog.func("display._footer"), "elided-list", ok, "elided dtype list = first and last `shown` of the full list", f.node,
-           message="_footer no longer elides the FULL dtype list symmetrically")
 
 
 # --------------------------------------------------------------------------------------------- d
